@@ -34,6 +34,9 @@ pub enum ConnKind {
     Silent,
     /// keep-alive: a second request `gap_ns` after the first response
     KeepAlive { gap_ns: u64 },
+    /// HTTP/2 with prior knowledge: preface, SETTINGS and the HEADERS frames of `streams`
+    /// concurrent requests in one burst; PINGs and SETTINGS are acknowledged until the server closes
+    H2 { streams: u8 },
 }
 
 #[derive(Serialize, Deserialize, Clone, Debug, PartialEq)]
@@ -136,6 +139,8 @@ struct ConnRec {
     /// (seq, ns) at which the client had written the whole first request
     req_written: Option<(u64, u64)>,
     req_len: usize,
+    /// HTTP/2: byte offset at which the HEADERS frame of stream k (request k) ends
+    h2_ends: Vec<usize>,
     results: Vec<(u32, ClientResult, u64)>,
     pipes: Option<ConnPipes>,
 }
@@ -270,6 +275,163 @@ fn find(h: &[u8], n: &[u8]) -> Option<usize> {
 
 const CLIENT_PATIENCE: Duration = Duration::from_secs(400);
 
+// ---- a minimal HTTP/2 client (prior knowledge, no TLS): enough of RFC 9113 / 7541 to send GET
+// requests and to read the responses of hyper's server byte for byte
+
+const H2_PREFACE: &[u8] = b"PRI * HTTP/2.0\r\n\r\nSM\r\n\r\n";
+
+fn h2_frame(ty: u8, flags: u8, stream: u32, payload: &[u8]) -> Vec<u8> {
+    let mut f = Vec::with_capacity(9 + payload.len());
+    let n = payload.len() as u32;
+    f.extend_from_slice(&[(n >> 16) as u8, (n >> 8) as u8, n as u8, ty, flags]);
+    f.extend_from_slice(&(stream & 0x7fff_ffff).to_be_bytes());
+    f.extend_from_slice(payload);
+    f
+}
+
+/// HPACK block of `GET http://sim/r/<id>/<ms>[/block]`: two indexed fields and two literals
+/// without indexing (static names), no Huffman coding.
+fn h2_request_block(id: u32, ms: u64, block: bool) -> Vec<u8> {
+    let path = format!("/r/{id}/{ms}{}", if block { "/block" } else { "" });
+    let mut b = vec![0x82, 0x86, 0x04, path.len() as u8];
+    b.extend_from_slice(path.as_bytes());
+    b.extend_from_slice(&[0x01, 3]);
+    b.extend_from_slice(b"sim");
+    b
+}
+
+async fn h2_client(i: usize, cs: &ConnScript, streams: u8, cl: net::SimStream, finish: &dyn Fn(u32, ClientResult)) {
+    let block = cs.fault == ConnFault::BlockingHandler;
+    let mut out = H2_PREFACE.to_vec();
+    out.extend(h2_frame(4, 0, 0, &[]));
+    let mut ends = Vec::new();
+    for k in 0..streams as u32 {
+        let id = req_id(i, k);
+        // END_STREAM | END_HEADERS
+        out.extend(h2_frame(1, 0x5, 1 + 2 * k, &h2_request_block(id, cs.handler_ms, block)));
+        ends.push(out.len());
+    }
+    let burst = out.len();
+    run_mut(|r| {
+        r.conns[i].req_len = ends[0];
+        r.conns[i].h2_ends = ends.clone();
+    });
+    // full duplex, like any real client: the server flushes its own SETTINGS before it reads on,
+    // so a client that only writes would deadlock against small socket buffers
+    let (mut rd, mut wr) = tokio::io::split(cl);
+    let mut written = 0usize;
+    // per stream: (status, body, done)
+    let mut st: Vec<(u16, Vec<u8>, bool)> = vec![(0, Vec::new(), false); streams as usize];
+    let mut buf: Vec<u8> = Vec::new();
+    let mut tmp = [0u8; 512];
+    let mut got = 0usize;
+    let deadline = tokio::time::Instant::now() + CLIENT_PATIENCE;
+    'conn: loop {
+        // every complete frame in the buffer
+        while buf.len() >= 9 {
+            let len = ((buf[0] as usize) << 16) | ((buf[1] as usize) << 8) | buf[2] as usize;
+            if buf.len() < 9 + len {
+                break;
+            }
+            let (ty, flags) = (buf[3], buf[4]);
+            let sid = u32::from_be_bytes([buf[5], buf[6], buf[7], buf[8]]) & 0x7fff_ffff;
+            let payload: Vec<u8> = buf[9..9 + len].to_vec();
+            buf.drain(..9 + len);
+            let k = if sid % 2 == 1 { ((sid - 1) / 2) as usize } else { usize::MAX };
+            match ty {
+                0 if k < st.len() => {
+                    // DATA (the server never pads)
+                    st[k].1.extend_from_slice(&payload);
+                    if flags & 0x1 != 0 && !st[k].2 {
+                        st[k].2 = true;
+                        finish(req_id(i, k as u32), ClientResult::Response(st[k].0, String::from_utf8_lossy(&st[k].1).to_string()));
+                    }
+                }
+                1 if k < st.len() => {
+                    // HEADERS: `:status` comes first and is an indexed field of the static table
+                    st[k].0 = match payload.first() {
+                        Some(0x88) => 200,
+                        Some(0x8e) => 500,
+                        Some(0x8d) => 404,
+                        Some(0x8c) => 400,
+                        _ => 0,
+                    };
+                    if flags & 0x1 != 0 && !st[k].2 {
+                        st[k].2 = true;
+                        finish(req_id(i, k as u32), ClientResult::Response(st[k].0, String::new()));
+                    }
+                }
+                3 if k < st.len() => {
+                    // RST_STREAM
+                    if !st[k].2 {
+                        st[k].2 = true;
+                        slog!("client{i} h2 stream {sid} reset by the server");
+                        finish(req_id(i, k as u32), ClientResult::Closed(got));
+                    }
+                }
+                4 if flags & 0x1 == 0 => out.extend(h2_frame(4, 0x1, 0, &[])),
+                6 if flags & 0x1 == 0 => out.extend(h2_frame(6, 0x1, 0, &payload)),
+                7 => {
+                    slog!("client{i} h2 GOAWAY last_stream={}", if payload.len() >= 4 { u32::from_be_bytes([payload[0], payload[1], payload[2], payload[3]]) & 0x7fff_ffff } else { 0 });
+                }
+                _ => {}
+            }
+        }
+        tokio::select! {
+            biased;
+            w = wr.write(&out), if !out.is_empty() => {
+                match w {
+                    Ok(n) if n > 0 => {
+                        out.drain(..n);
+                        let before = written;
+                        written += n;
+                        if before < burst && written >= burst {
+                            let s = slog!("client{i} h2 preface + {streams} request(s) fully written");
+                            let t = sched::now_ns();
+                            run_mut(|r| r.conns[i].req_written = Some((s, t)));
+                            if cs.fault == ConnFault::DisconnectAfterRequest {
+                                sched::count("fault_client_disconnect_after_request", 1);
+                                finish(req_id(i, 0), ClientResult::Faulted);
+                                return;
+                            }
+                        }
+                    }
+                    _ => {
+                        if written < burst {
+                            finish(req_id(i, 0), ClientResult::WriteFailed);
+                            return;
+                        }
+                        break 'conn;
+                    }
+                }
+            }
+            r = rd.read(&mut tmp) => {
+                match r {
+                    Ok(0) | Err(_) => break 'conn,
+                    Ok(n) => {
+                        got += n;
+                        buf.extend_from_slice(&tmp[..n]);
+                    }
+                }
+            }
+            _ = tokio::time::sleep_until(deadline) => {
+                for k in 0..st.len() {
+                    if !st[k].2 {
+                        st[k].2 = true;
+                        finish(req_id(i, k as u32), ClientResult::TimedOut(got));
+                    }
+                }
+                return;
+            }
+        }
+    }
+    for k in 0..st.len() {
+        if !st[k].2 {
+            finish(req_id(i, k as u32), ClientResult::Closed(got));
+        }
+    }
+}
+
 async fn client(i: usize, cs: ConnScript, listeners: Vec<SharedListener>, ret: tokio::sync::watch::Receiver<bool>, net_preempt: bool) {
     match cs.when {
         When::At { ns } => tokio::time::sleep(Duration::from_nanos(ns)).await,
@@ -300,6 +462,7 @@ async fn client(i: usize, cs: ConnScript, listeners: Vec<SharedListener>, ret: t
             kickoff_seq: None,
             req_written: None,
             req_len: req.len(),
+            h2_ends: Vec::new(),
             results: Vec::new(),
             pipes: Some(pipes),
         };
@@ -336,6 +499,11 @@ async fn client(i: usize, cs: ConnScript, listeners: Vec<SharedListener>, ret: t
             return;
         }
         ConnKind::Delayed { delay_ns } => tokio::time::sleep(Duration::from_nanos(*delay_ns)).await,
+        ConnKind::H2 { streams } => {
+            sched::count("h2_connections", 1);
+            h2_client(i, &cs, (*streams).clamp(1, 4), cl, &finish).await;
+            return;
+        }
         _ => {}
     }
     if cl.write_all(&req).await.is_err() {
@@ -530,8 +698,9 @@ fn evaluate(script: &Script, run: &Run, out: &mut RunOut) {
         // no shutdown: every fault-free full request is answered
         for (ci, c) in run.conns.iter().enumerate() {
             let cs = &script.conns[ci];
-            if cs.fault == ConnFault::None && matches!(cs.kind, ConnKind::Full | ConnKind::Delayed { .. } | ConnKind::KeepAlive { .. }) && !c.dropped_busy && c.connect_seq > 0 {
-                let ok = c.results.iter().any(|(id, r, _)| *id == req_id(ci, 0) && matches!(r, ClientResult::Response(..)));
+            if cs.fault == ConnFault::None && matches!(cs.kind, ConnKind::Full | ConnKind::Delayed { .. } | ConnKind::KeepAlive { .. } | ConnKind::H2 { .. }) && !c.dropped_busy && c.connect_seq > 0 {
+                let n_req = if let ConnKind::H2 { streams } = cs.kind { streams.clamp(1, 4) as u32 } else { 1 };
+                let ok = (0..n_req).all(|k| c.results.iter().any(|(id, r, _)| *id == req_id(ci, k) && matches!(r, ClientResult::Response(..))));
                 if !ok {
                     out.violations.push(viol("served-without-shutdown", format!("kind={:?}", kind_tag(&cs.kind)), format!("conn{ci}: no shutdown was requested, yet the request got {:?}", c.results)));
                 }
@@ -675,6 +844,8 @@ fn evaluate(script: &Script, run: &Run, out: &mut RunOut) {
         let first_poll = c2s.first_read_poll_seq;
         let head_read_before_call = c2s.read_marks.iter().any(|(s, tot)| *s < call_seq && *tot as usize >= c.req_len);
         let never_polled_before_call = first_poll.map(|s| s > call_seq).unwrap_or(true);
+        // HTTP/2: which of the burst's HEADERS frames the server had consumed before the call
+        let h2_read_before_call: Vec<bool> = c.h2_ends.iter().map(|end| c2s.read_marks.iter().any(|(s, tot)| *s < call_seq && *tot as usize >= *end)).collect();
         drop(c2s);
         let dispatched_before = matches!(c.dispatched_seq, Some(s) if s < call_seq);
         let written_before = matches!(c.req_written, Some((s, _)) if s < call_seq);
@@ -688,7 +859,7 @@ fn evaluate(script: &Script, run: &Run, out: &mut RunOut) {
             && written_before
             && !c.dropped_busy
             && matches!(cs.fault, ConnFault::None | ConnFault::BlockingHandler)
-            && matches!(cs.kind, ConnKind::Full | ConnKind::Delayed { .. } | ConnKind::KeepAlive { .. })
+            && matches!(cs.kind, ConnKind::Full | ConnKind::Delayed { .. } | ConnKind::KeepAlive { .. } | ConnKind::H2 { .. })
             && (cs.handler_ms * 1_000_000).saturating_add(SLACK_NS) < timeout_ns
             && (never_polled_before_call || head_read_before_call)
             && (total_blocking_ms == 0 || blocking_fits(if cs.fault == ConnFault::BlockingHandler { 0 } else { cs.handler_ms }));
@@ -702,7 +873,24 @@ fn evaluate(script: &Script, run: &Run, out: &mut RunOut) {
         } else if run.reqs.get(&req_id(ci, 0)).map(|r| !matches!(r.handler_end, Some((s, _)) if s < call_seq)).unwrap_or(false) {
             out.count("probe_shutdown_with_handler_in_flight", 1);
         }
-        let id0 = req_id(ci, 0);
+        // HTTP/2: every request of the burst whose HEADERS frame had been consumed before the call (all
+        // of them if the connection had not been polled at all) is owed an answer; blocking handlers
+        // on one connection serialise, which the `blocking_fits` bound above does not model per stream
+        let n_req = if let ConnKind::H2 { streams } = cs.kind { streams.clamp(1, 4) as u32 } else { 1 };
+        if n_req > 1 {
+            out.count("probe_h2_class_a_with_concurrent_streams", 1);
+        }
+        if matches!(cs.kind, ConnKind::H2 { .. }) {
+            out.count("class_a_h2_connections", 1);
+        }
+        for k in 0..n_req {
+        if k > 0 && !(queued || h2_read_before_call.get(k as usize).copied().unwrap_or(false)) {
+            continue;
+        }
+        if k > 0 && cs.fault == ConnFault::BlockingHandler && !blocking_fits(cs.handler_ms * n_req as u64) {
+            continue;
+        }
+        let id0 = req_id(ci, k);
         let got = c.results.iter().find(|(id, _, _)| *id == id0).map(|(_, r, _)| r);
         let ok = matches!(got, Some(ClientResult::Response(200, b)) if b == &format!("id={id0}"));
         if !ok {
@@ -732,6 +920,7 @@ fn evaluate(script: &Script, run: &Run, out: &mut RunOut) {
                     got
                 ),
             ));
+        }
         }
     }
     // 3a. … and not before: if the future resolved before the timeout had elapsed, no handler may
@@ -767,6 +956,7 @@ fn evaluate(script: &Script, run: &Run, out: &mut RunOut) {
 
 fn kind_tag(k: &ConnKind) -> &'static str {
     match k {
+        ConnKind::H2 { .. } => "h2",
         ConnKind::Full => "full",
         ConnKind::Delayed { .. } => "delayed",
         ConnKind::HalfHeaders { .. } => "half",
@@ -803,6 +993,7 @@ pub fn execute(script: &Script, tape: &mut Tape, keep_log: bool) -> RunOut {
                 kickoff_seq: None,
                 req_written: None,
                 req_len: 0,
+                h2_ends: Vec::new(),
                 results: Vec::new(),
                 pipes: None,
             });
@@ -915,7 +1106,7 @@ impl Sim for SrvSim {
             rule: "Each run draws workers 1-4, listeners 1-2, 0-12 connections (full request at connect time, delayed request, half-sent headers, silent, keep-alive with a second request; handler durations 0, << timeout, ~timeout±3ms, >> timeout; client faults), a shutdown call at a seeded instant (Forced or Graceful 50 ms-60 s, optionally a second concurrent call and a task awaiting a cloned handle), connection attempts after the call has returned, per-thread scheduling weights (to starve a thread) and a preemption rate. The choice tape decides which simulated thread is polled at every step and how many other threads run at each hooked preemption point. Non-trivial: at least one connection existed when shutdown was called. Distinct: distinct hash of the sequence of (thread polled, preemption label) events.".into(),
             real: vec!["pavex Server, ServerHandle, Acceptor, Worker (runtime/pavex/src/server/*)".into(), "hyper 1.x HTTP/1 connection state machine".into(), "hyper-util auto::Builder + GracefulShutdown".into(), "tokio mpsc/oneshot/watch channels, LocalSet, JoinSet, timers (paused clock)".into()],
             stub: vec!["OS threads → simulated threads (nested LocalSets polled by the seeded scheduler)".into(), "TCP listener and sockets → in-memory pipes (cfg(pavex_verif) seam)".into(), "clients → raw HTTP/1.1 simulator tasks".into(), "wall clock and OS entropy → libc-level seams".into()],
-            assumptions: vec!["threads interleave at awaits and at the hooked synchronous preemption points, not between arbitrary instructions".into(), "class A ('received before the call') = dispatched to a worker and fully written before the call, and either never polled by the worker yet (queued) or its head already read; bytes that reach an already-served idle connection but are still unread when the worker processes the shutdown are hyper's documented idle-connection race and are only counted (probe_unread_bytes_on_served_connection_at_call)".into(), "HTTP/1.1 only".into()],
+            assumptions: vec!["threads interleave at awaits and at the hooked synchronous preemption points, not between arbitrary instructions".into(), "class A ('received before the call') = dispatched to a worker and fully written before the call, and either never polled by the worker yet (queued) or its head already read; bytes that reach an already-served idle connection but are still unread when the worker processes the shutdown are hyper's documented idle-connection race and are only counted (probe_unread_bytes_on_served_connection_at_call)".into(), "HTTP/1.1 (hand-written client) and HTTP/2 with prior knowledge (hand-written client: preface, SETTINGS, HEADERS with END_STREAM, PING/SETTINGS acknowledgements; no flow-control pressure, no CONTINUATION, no request bodies)".into()],
             fault_counters: vec!["fault_blocking_handler".into(), "fault_client_disconnect_after_request".into(), "fault_client_disconnect_mid_response".into(), "fault_stalled_reader".into(), "fault_handler_panic".into(), "preemptions_taken".into()],
             expected_probes: vec!["probe_all_workers_busy_drop".into(), "probe_shutdown_overtook_queued_connection".into(), "probe_shutdown_with_handler_in_flight".into(), "probe_timeout_elapsed".into(), "probe_connect_after_return".into(), "probe_forced_with_inflight".into(), "probe_waiter_resolved".into(), "probe_second_call_resolved".into(), "class_a_requests".into()],
         }
@@ -1026,7 +1217,15 @@ impl Sim for SrvSim {
             let weights = vec![("pavex-worker".to_string(), 1), ("pavex-acceptor".to_string(), 64), ("client".to_string(), 24), ("driver".to_string(), 1)];
             return Script { workers, listeners: 1, conns, shutdown, weights, preempt_den: 1000, net_preempt: false };
         }
-        Script { workers, listeners, conns, shutdown, weights, preempt_den: *rng.pick(&[3, 4, 8, 8, 16, 1000]), net_preempt: rng.chance(1, 3) }
+        let mut sc = Script { workers, listeners, conns, shutdown, weights, preempt_den: *rng.pick(&[3, 4, 8, 8, 16, 1000]), net_preempt: rng.chance(1, 3) };
+        // last draws (the rest of the script is the same function of the seed as before this arm
+        // existed): one plain connection in five speaks HTTP/2 with 1-4 concurrent requests
+        for c in sc.conns.iter_mut() {
+            if matches!(c.kind, ConnKind::Full) && matches!(c.fault, ConnFault::None | ConnFault::BlockingHandler | ConnFault::DisconnectAfterRequest) && rng.chance(1, 5) {
+                c.kind = ConnKind::H2 { streams: *rng.pick(&[1, 1, 2, 3, 4]) };
+            }
+        }
+        sc
     }
 
     fn run(script: &Script, tape: &mut Tape, keep_log: bool) -> RunOut {
@@ -1035,6 +1234,13 @@ impl Sim for SrvSim {
 
     fn shrink(s: &Script) -> Vec<Script> {
         let mut c = Vec::new();
+        for i in 0..s.conns.len() {
+            if let ConnKind::H2 { streams } = s.conns[i].kind {
+                let mut t = s.clone();
+                t.conns[i].kind = if streams > 1 { ConnKind::H2 { streams: streams - 1 } } else { ConnKind::Full };
+                c.push(t);
+            }
+        }
         for i in 0..s.conns.len() {
             let mut t = s.clone();
             t.conns.remove(i);
